@@ -7,7 +7,8 @@
    certificate must verify), [check_signature_before_fix] the same without the pre-check.
    Cryptography is symbolic: a digest is the digested tree, a signature value is intact or not and names
    the key that made it.  All statements are for documents of any size and shape. *)
-From PV Require Import Lib.Base Model.Xsw Proofs.Xsw_lemmas.
+From PV Require Import Lib.Base Model.Status Model.Response Model.Xsw Proofs.Response_lemmas Proofs.C02_lemmas
+  Proofs.Xsw_lemmas Proofs.C01_pipeline.
 Open Scope N_scope.
 
 (* (0) Digest equality is structural equality (used everywhere below). *)
@@ -92,6 +93,40 @@ Theorem C01_accepted_content_was_signed :
     exists v px X k D, i = Some v /\ covered doc nm v certs px X k D /\ signed [(HASH :: v, D)].
 Proof. exact accepted_content_was_signed. Qed.
 Print Assumptions C01_accepted_content_was_signed.
+
+(* (3') Tie to the SP pipeline (Model/Response.v, the model C02 is proved about; its signature verdicts are
+   inputs).  HYPOTHESES (the composition step that is tested, not proved): a positive verdict recorded for
+   the response was produced by _check_signature on the received text [sent] with the response's name and
+   ID, and a positive verdict recorded for an assertion the application may read ([processed r]: plain ones
+   and the decrypted ones) by _check_signature on the text handed to the tool for it ([atext a]) with the
+   assertion's name and ID.  Then, for every configuration and content: if the response is accepted, every
+   signature pysaml2 saw covers its element; want_response_signed => the response element is covered;
+   want_assertions_signed => every assertion read is covered; want_assertions_or_response_signed => one of
+   the two. *)
+Theorem C01_pipeline_relied_covered :
+  forall pol certs RESPn ASSNn sent c r rid atext aid,
+    (r_sig r = Some (Ok tt) -> check_signature_x pol sent RESPn rid certs = true) ->
+    (forall a, In a (processed r) -> a_sig a = Some (Ok tt) -> check_signature_x pol (atext a) ASSNn (aid a) certs = true) ->
+    forall o, parse_response c r = Ok o ->
+      (present (r_sig r) = true -> elem_covered certs sent RESPn rid) /\
+      (forall a, In a (processed r) -> present (a_sig a) = true -> elem_covered certs (atext a) ASSNn (aid a)) /\
+      (wrs c = true -> elem_covered certs sent RESPn rid) /\
+      (was c = true -> forall a, In a (processed r) -> elem_covered certs (atext a) ASSNn (aid a)) /\
+      (waors c = true -> elem_covered certs sent RESPn rid \/
+                         forall a, In a (processed r) -> elem_covered certs (atext a) ASSNn (aid a)).
+Proof. exact pipeline_relied_covered. Qed.
+Print Assumptions C01_pipeline_relied_covered.
+
+(* (3'') ... and the identity handed to the application comes only from those assertions: every assertion in
+   AuthnResponse.assertions after acceptance (o_assertions; name id, attributes, conditions and session info are
+   read from them) is one of [processed r] — through the retry structure of Entity._parse_response and the
+   state a failed first attempt leaves behind.  With (3'): under want_assertions_signed each of them is a covered
+   element; under want_response_signed they are what pysaml2 read from the covered response. *)
+Theorem C01_identity_from_processed_assertions :
+  forall c r o, parse_response c r = Ok o ->
+    forall n, In n (o_assertions o) -> exists a, In a (processed r) /\ a_id a = n.
+Proof. exact accepted_reads_processed. Qed.
+Print Assumptions C01_identity_from_processed_assertions.
 
 (* ------------------------------------------------------------------ witnesses *)
 Definition RESP : N := 1.  Definition ASSN : N := 2.  Definition EXT : N := 3.  Definition SUBJ : N := 4.
